@@ -24,6 +24,7 @@ type Gen struct {
 	nTx    int // optimistic count of created transactions (ids are 1..nTx when nothing failed)
 	ikins  map[string]int
 	MaxNow int
+	keyed  []Op // earlier operations that carried an idempotency key (candidates for a client retry)
 }
 
 func NewGen(seed int64, ledger string) *Gen {
@@ -73,6 +74,12 @@ func (g *Gen) posting(funded bool) Posting {
 func (g *Gen) Next(step int) Op {
 	if g.R.Intn(3) > 0 && g.now < g.MaxNow {
 		g.now++
+	}
+	if step >= 2 && len(g.keyed) > 0 && g.R.Intn(7) == 0 {
+		// a client retry: the very same request (same key, same input) sent again later
+		op := g.keyed[g.R.Intn(len(g.keyed))]
+		op.Now = g.now
+		return op
 	}
 	op := Op{L: g.Ledger, Now: g.now}
 	r := g.R.Intn(100)
@@ -156,6 +163,9 @@ func (g *Gen) Next(step int) Op {
 	op.IK = g.pick(GenIKs)
 	op.Norm()
 	op.IKIn = g.inputID(op)
+	if op.IK != "" {
+		g.keyed = append(g.keyed, op)
+	}
 	return op
 }
 
